@@ -180,6 +180,10 @@ func (m *MatchHTTP) handleHttp2WithPriorKnowledge(reader io.Reader, req *http.Re
 	}
 
 	framer := http2.NewFramer(io.Discard, reader)
+	// A frame that is to be found within the matching buffer cannot be larger than that buffer. Without a limit
+	// the framer allocates whatever the 24-bit length field of a frame header announces (up to 16 MiB) before
+	// it reads the payload, for every evaluation of every connection.
+	framer.SetMaxReadFrameSize(2 * layer4.MaxMatchingBytes)
 
 	// read the first 10 frames until we get a headers frame (skipping settings, window update & priority frames)
 	var frame http2.Frame
